@@ -440,6 +440,7 @@ class SimMachine(object):
         self.ff_log = []
         self.ff_bad_cores = []
         self.alloc_fail_hook = None
+        self.on_count = None        # hook(app, state, count) on a count query
         eth = eth_chips if eth_chips is not None else [root]
         for i, xy in enumerate(eth):
             ch = self.chips[xy]
@@ -805,6 +806,8 @@ class SimMachine(object):
                         if c.state == state:
                             n += 1
             if op == 2:
+                if self.on_count is not None:
+                    self.on_count(app, state, n)
                 return RC_OK, [n], b""
             if op == 1:
                 return RC_OK, [1 if (total and n == total) else 0], b""
